@@ -140,9 +140,10 @@ func (g *G) refValue(c *StoreGenCfg) any {
 	n := g.Range(1, 3)
 	l := make([]any, 0, n)
 	seen := map[string]bool{}
+	dups := g.P(0.15) // a reference array may name a target more than once
 	for i := 0; i < n; i++ {
 		t := g.Pick(c.Pool)
-		if !seen[t] {
+		if !seen[t] || dups {
 			seen[t] = true
 			l = append(l, t)
 		}
